@@ -150,9 +150,15 @@ func (env *SpecEnv) resolveType(t *SType) types.Type {
 		return types.NewSlice(env.resolveType(t.Elem))
 	case "map":
 		return types.NewMap(env.resolveType(t.Key), env.resolveType(t.Elem))
+	case "set":
+		return &specT{kind: "set", k: env.resolveType(t.Elem)}
+	case "arr":
+		return &specT{kind: "arr", v: env.resolveType(t.Elem)}
 	}
 	if t.Pkg == "" {
 		switch t.Name {
+		case "ByteArr":
+			return &specT{kind: "arr", v: types.Typ[types.Uint8]}
 		case "mathint", "Int":
 			return mathInt
 		case "Ref":
@@ -380,6 +386,9 @@ func (env *SpecEnv) evalQuant(e *SExpr) TV {
 			guards = append(guards, rangeFact(tm, ty))
 		}
 	}
+	saved := env.vc.noLoadFacts
+	env.vc.noLoadFacts = true // loads mentioning bound variables must not leak facts outside the quantifier
+	defer func() { env.vc.noLoadFacts = saved }()
 	body := sub.boolOf(sub.eval(e.X))
 	var pats [][]*Term
 	for _, p := range e.Pats {
@@ -523,7 +532,12 @@ func (env *SpecEnv) index(x, i TV) TV {
 		p := &VPtr{Kind: PElem, Base: s.Base, Idx: mkAdd(s.Off, env.scalar(i)), Root: t.Elem()}
 		return TV{vc.loadPtr(env.st, p, t.Elem()), t.Elem()}
 	case *types.Map:
-		v, _ := vc.mapLoad(env.st, env.scalar(x), t, env.scalar(i))
+		// specification-level lookup: the stored value (unspecified for absent keys; guard with `k in m`)
+		m, k := env.scalar(x), env.scalar(i)
+		v := buildVal(t.Elem(), "", func(l Leaf) *Term {
+			_, arr := vc.mapValLeaf(env.st, t, m, l)
+			return mkSelect(mkSelect(arr, m), k)
+		})
 		return TV{v, t.Elem()}
 	case *types.Pointer:
 		if at, ok := t.Elem().Underlying().(*types.Array); ok {
@@ -572,6 +586,12 @@ func (vc *VC) selectField(env *SpecEnv, x TV, name string) TV {
 			return TV{vt.E[idx], tt.At(idx).Type()}
 		}
 		env.fail("bad tuple selector .%s", name)
+	}
+	if _, isIface := x.T.Underlying().(*types.Interface); isIface {
+		// interface value with a declared (devirt) implementation: select through the implementation type
+		if impl := vc.eng.devirt[typeKey(x.T)]; impl != nil {
+			x = TV{x.V, impl}
+		}
 	}
 	bt, isPtr := derefType(x.T)
 	st, ok := isStruct(bt)
@@ -656,8 +676,15 @@ func findField(st *types.Struct, name string) ([]int, types.Type) {
 
 func (env *SpecEnv) resolveTypeIn(g *GhostField) types.Type {
 	sub := *env
-	sub.pkg = env.vc.eng.typesPkg(g.PkgPath)
+	pp := g.PkgPath
+	if g.DeclPkg != "" {
+		pp = g.DeclPkg
+	}
+	sub.pkg = env.vc.eng.typesPkg(pp)
 	sub.imports = env.vc.eng.importsOf(sub.pkg)
+	if im, ok := env.vc.eng.contracts.Imports[g.File]; ok && sub.pkg == nil {
+		sub.imports = im
+	}
 	return sub.resolveType(g.Type)
 }
 
@@ -835,6 +862,21 @@ func (env *SpecEnv) evalCall(e *SExpr) TV {
 			return TV{&VS{mkSelect(env.st.heap[key], env.scalar(env.eval(e.Args[0])))}, boolT}
 		case "strlen":
 			return TV{&VS{vc.strlen(env.scalar(env.eval(e.Args[0])))}, mathInt}
+		case "strbytes":
+			return TV{&VS{mkApp("strbytes", SArr(SInt, SInt), env.scalar(env.eval(e.Args[0])))}, &specT{kind: "arr", v: types.Typ[types.Uint8]}}
+		case "update":
+			a := env.eval(e.Args[0])
+			return TV{&VS{mkStore(env.scalar(a), env.scalar(env.eval(e.Args[1])), env.scalar(env.eval(e.Args[2])))}, a.T}
+		case "setAdd":
+			a := env.eval(e.Args[0])
+			return TV{&VS{mkStore(env.scalar(a), env.scalar(env.eval(e.Args[1])), tTrue)}, a.T}
+		case "setRemove":
+			a := env.eval(e.Args[0])
+			return TV{&VS{mkStore(env.scalar(a), env.scalar(env.eval(e.Args[1])), tFalse)}, a.T}
+		case "emptySet":
+			// emptySet(T-typed example value) is not needed: the element sort is taken from the expected use
+			kt := types.Type(types.Typ[types.Uint64])
+			return TV{&VS{mkConstArr(SArr(leafSort(kt), SBool), tFalse)}, &specT{kind: "set", k: kt}}
 		case "now":
 			return TV{&VS{vc.nowTerm()}, mathInt}
 		case "errIs":
@@ -1029,6 +1071,9 @@ func (env *SpecEnv) callGo(fn *ssa.Function, recv *TV, args []*SExpr) TV {
 	}
 	if env.depth > 6 {
 		env.fail("spec call depth exceeded")
+	}
+	if len(env.bound) > 0 {
+		env.fail("call of Go function %s under a quantifier is not supported (use fields or pure spec functions)", fn.Name())
 	}
 	var vals []Val
 	if recv != nil {
